@@ -3,17 +3,15 @@ C10 — no request or response can make validation of a valid document panic.
 
 Full-strength goal (DESIGN §4):
     valid_doc_no_panic : DocValid d → ∀ traffic, outcome d traffic ≠ panic ∧ outcome d traffic ≠ diverge
-The current tree deviates in four places, so what is proved is `valid_doc_no_panic_partial` under the
-decidable exclusion `ExclC10` (the finding classes below, each with a kernel-checked witness below and an open entry
-in known_findings.d/C10.json):
-  F-C10-1  UnguardedRecursion     (DESIGN §7 #6)  `A: {allOf:[{$ref:A}]}` → unbounded recursion
-  F-C10-2  LiteralTemplateMiss    (new)           legacy router: request path is literally a template that
-                                                  does not match itself (`/a/{x}.json`) → nil dereference
-  F-C10-3  PortUnclosed           (new)           gorillamux NewRouter: server URL with `:{` not followed by `}`
-  F-C10-4  ContentParamNoSchema   (new)           parameter described by `content: {application/json: {}}`
-  F-C10-5  EmptyRecursion         (new)           `L: {items: {$ref: L}}`: `Schema.IsEmpty` follows a cycle of schemas
-                                                  without own keywords (found by the differential run: the design
-                                                  prototype's `guarded_terminates` did not describe the code)
+One deviation is left on the current tree, so what is proved is `valid_doc_no_panic_partial` under the
+decidable exclusion `ExclC10`:
+  F-C10-1  UnguardedRecursion  (DESIGN §7 #6, open)  `A: {allOf:[{$ref:A}]}` → unbounded recursion
+Four more classes were found while this check was built and have since been repaired in the repository;
+their theorems are now at full strength and their witness inputs are regression cases in corpus/C10:
+  F-C10-2 (8654816) legacy router, request path spells a non-matching template → `legacyFindRoute_no_panic`
+  F-C10-3 (a0fa632) gorillamux NewRouter, `:{` without `}`                     → `gorillaPortBranch_no_panic`
+  F-C10-4 (b569d4d) parameter described by `content: {application/json: {}}`   → `validateParameter_no_panic_partial` without that exclusion
+  F-C10-5 (08457da) `L: {items: {$ref: L}}`, IsEmpty followed the cycle         → `guarded_recursion_terminates` for schemas without own keywords too
 plus the translator obligation `all_sites_discharged` over the regenerated panic-site table.
 -/
 import KinModel.PanicSites
@@ -39,10 +37,9 @@ theorem all_sites_discharged_table : PanicSites.allDischarged PanicSites.expecta
 theorem all_sites_discharged : ∀ r ∈ Gen.panicSites, r.discharged PanicSites.expectations = true :=
   PanicSites.discharged_of_all all_sites_discharged_table
 
-/-- the rows that are discharged only as open findings are exactly these two -/
+/-- no row is discharged as an open finding any more (F-C10-3 and F-C10-4 are repaired) -/
 theorem open_finding_rows :
-    (PanicSites.openFindingRows PanicSites.expectations Gen.panicSites).map (·.1) =
-      ["makeServers", "defaultContentParameterDecoder"] := by decide
+    PanicSites.openFindingRows PanicSites.expectations Gen.panicSites = [] := by decide
 
 /-! ## Server.MatchRawURL -/
 
@@ -64,34 +61,30 @@ example : Server.matchRawURL "http://h/v1".toList "http://h/v2".toList = .noMatc
 
 /-! ## routers -/
 
-/-- full strength would be: ∀ valid documents and requests, legacy FindRoute ≠ panic. It fails (F-C10-2). -/
-theorem legacyFindRoute_no_panic_partial (servers : List Str) (paths : List PathM) (method rawURL urlPath : Str)
-    (hex : ∀ remaining, LiteralTemplateMiss paths method remaining = false) :
+/-- for every document and every request the legacy router's FindRoute does not panic (full strength since
+    8654816: the fall-back after a failed match always ends in a route error) -/
+theorem legacyFindRoute_no_panic (servers : List Str) (paths : List PathM) (method rawURL urlPath : Str) :
     ∀ site, legacyFindRoute servers paths method rawURL urlPath ≠ .panic site := by
   intro site
   unfold legacyFindRoute
   split
   · simp
   · split
-    · exact legacyAfterServer_no_panic _ _ _ (hex _) site
+    · exact legacyAfterServer_no_panic _ _ _ site
     · have hp := Router.matchServers_ne_panic servers rawURL
       split
       · simp
-      · exact legacyAfterServer_no_panic _ _ _ (hex _) site
+      · exact legacyAfterServer_no_panic _ _ _ site
       · rename_i h; exact absurd h hp
       · simp
 
 def pathsW : List PathM := [⟨"/a/{x}.json".toList, ["GET".toList]⟩]
 
-/-- witness F-C10-2: the model reaches the nil dereference, and the input is inside the exclusion -/
-theorem legacy_literal_template_witness :
-    legacyFindRoute [] pathsW "GET".toList "http://h/a/%7Bx%7D.json".toList "/a/{x}.json".toList =
-      .panic "legacy/router.go FindRoute: node.VariableNames with node == nil"
-    ∧ LiteralTemplateMiss pathsW "GET".toList "/a/{x}.json".toList = true := by decide
+/-- regression of F-C10-2: the request that spells the template is "path not found" -/
+theorem legacy_literal_template_regression :
+    legacyFindRoute [] pathsW "GET".toList "http://h/a/%7Bx%7D.json".toList "/a/{x}.json".toList = .pathNotFound := by decide
 
-/-- non-vacuity: ordinary requests route, miss, or are refused, and are outside the exclusion -/
-example : legacyFindRoute [] pathsW "GET".toList [] "/a/5.json".toList = .pathNotFound
-    ∧ LiteralTemplateMiss pathsW "GET".toList "/a/5.json".toList = false := by decide
+example : legacyFindRoute [] pathsW "GET".toList [] "/a/5.json".toList = .pathNotFound := by decide
 example : legacyFindRoute ["http://h/v1/".toList] [⟨"/a/{x}".toList, ["GET".toList]⟩] "GET".toList
       "http://h/v1/a/7".toList "/v1/a/7".toList = .found := by decide
 example : legacyFindRoute [] [⟨"/a".toList, ["GET".toList]⟩] "PROPFIND".toList [] "/a".toList = .methodNotAllowed := by decide
@@ -118,12 +111,14 @@ theorem gorilla_getOperation_no_panic (routes : List (List Str)) (muxMatch : Opt
     this is what the `Methods(methods...)` call protects -/
 theorem getOperation_unknown_method_panics : getOperation [] "PROPFIND".toList = .panic := by decide
 
-/-- witness F-C10-3 -/
-theorem port_unclosed_witness :
-    gorillaPortBranch "http://h/{{}}}:{".toList = .panic ∧ PortUnclosed "http://h/{{}}}:{".toList = true := by decide
+/-- the port-variable branch of gorillamux `makeServers` never slices out of range (full strength since a0fa632) -/
+theorem gorillaPortBranch_no_panic (u : Str) : gorillaPortBranch u ≠ .panic := Router.gorillaPortBranch_no_panic u
+
+/-- regression of F-C10-3: the unclosed port variable is a router-construction error -/
+theorem port_unclosed_regression : gorillaPortBranch "http://h/{{}}}:{".toList = .routerError := by decide
 
 example : gorillaPortBranch "http://h:{port}/v1".toList = .port "port".toList := by decide
-example : PortUnclosed "http://h:{port}/v1".toList = false ∧ PortUnclosed "{server}".toList = false := by decide
+example : gorillaPortBranch "{server}".toList = .noPort := by decide
 
 /-! ## stage-2 recursion (finding #6) -/
 
@@ -132,29 +127,31 @@ theorem fuel_monotone (Γ : Recursion.Env) (k fuel : Nat) (s : Recursion.S) (v :
     (h : Recursion.visit Γ fuel s v = .ok b) : Recursion.visit Γ (fuel + k) s v = .ok b :=
   (Recursion.visit_mono_k Γ k).1 fuel s v b h
 
-/-- witness F-C10-1: `A: {nullable: true, allOf: [{$ref: A}]}` is undecided for every amount of fuel and every value -/
-theorem unguarded_recursion_diverges (v : Recursion.J) (fuel : Nat) :
-    Recursion.visit Recursion.Γ6 fuel (.ref 0) v = .diverge := (Recursion.unguarded_diverges v fuel).1
+/-- witness F-C10-1: `A: {allOf: [{$ref: A}]}`, with or without own keywords, is undecided for every amount
+    of fuel and every value -/
+theorem unguarded_recursion_diverges (own : Bool) (v : Recursion.J) (fuel : Nat) :
+    Recursion.visit (Recursion.Γ6 own) fuel (.ref 0) v = .diverge := (Recursion.unguarded_diverges own v fuel).1
 
-/-- witness F-C10-5: `L: {items: {$ref: L}}` — a guarded cycle of schemas without own keywords — is undecided
-    for every amount of fuel and every value, because `IsEmpty` follows the cycle -/
-theorem emptiness_recursion_diverges (v : Recursion.J) (fuel : Nat) :
-    Recursion.visit Recursion.ΓE fuel (.ref 0) v = .diverge := Recursion.emptiness_diverges v fuel
+/-- a recursive schema whose cycle passes through `items` is decided for every value — also when it has no
+    keyword of its own (`L: {items: {$ref: L}}`, F-C10-5 before 08457da) -/
+theorem guarded_recursion_terminates (own : Bool) (v : Recursion.J) :
+    Recursion.visit (Recursion.ΓL own) (Recursion.fuelFor v) (.ref 0) v = .ok true := Recursion.guarded_terminates own v
 
-/-- a recursive schema with a keyword of its own whose cycle passes through `items` is decided for every value -/
-theorem guarded_recursion_terminates (v : Recursion.J) :
-    Recursion.visit Recursion.ΓL (Recursion.fuelFor v) (.ref 0) v = .ok true := Recursion.guarded_terminates v
+/-- `Schema.IsEmpty` as a function still follows that cycle without end; `visitJSON` no longer evaluates it
+    on schemas with sub-schemas, and on the others it answers at once -/
+theorem isEmpty_still_diverges (fuel : Nat) : Recursion.isEmpty (Recursion.ΓL false) fuel (.ref 0) = .diverge :=
+  (Recursion.isEmpty_diverges fuel).1
+theorem isEmpty_without_subschemas_answers (Γ : Recursion.Env) (own : Bool) (fuel : Nat) :
+    Recursion.isEmpty Γ (fuel + 1) (.node own [] none) = .ok (!own) := Recursion.isEmpty_no_sub Γ own fuel
 
 theorem unguarded_cycle_detected :
     Recursion.hasUnguardedCycle [.node true [.ref 0] none] = true ∧
-    Recursion.hasUnguardedCycle [.node true [] (some (.ref 0))] = false ∧
-    Recursion.hasEmptinessCycle [.node false [] (some (.ref 0))] 50 = true ∧
-    Recursion.hasEmptinessCycle [.node true [] (some (.ref 0))] 50 = false := by decide
+    Recursion.hasUnguardedCycle [.node false [.ref 0] none] = true ∧
+    Recursion.hasUnguardedCycle [.node false [] (some (.ref 0))] = false := by decide
 
 /-! ## request, response, error conversion -/
 
 theorem validateParameter_no_panic_partial (p : ParamM) (b : Bits) (hwf : p.wf = true)
-    (hx : p.contentNoSchema = false)
     (hu1 : ∀ s, p.schema = some s → s.unguarded = false)
     (hu2 : ∀ m s, p.jsonMedia = some m → m.schema = some s → s.unguarded = false) :
     (validateParameter p b).bad = false := by
@@ -182,10 +179,10 @@ theorem validateParameter_no_panic_partial (p : ParamM) (b : Bits) (hwf : p.wf =
               simp only
               cases hms : mt.schema with
               | none =>
-                exfalso
-                unfold ParamM.contentNoSchema at hx
-                have : p.contentLen = 1 := by omega
-                simp [hc, this, hj, hms] at hx
+                simp only
+                split
+                · rfl
+                · exact afterDecode_not_bad _ _ _ (by simp)
               | some s =>
                 simp only
                 have hres : s.resolved = true := by simpa [hj, MediaM.wf, hms, SchemaM.wf] using hm
@@ -259,7 +256,7 @@ theorem validateHeader_no_panic_partial (h : HeaderM) (b : Bits) (hwf : h.wf = t
       · split <;> rfl
 
 /-- the decidable exclusion of the request/response part -/
-def ExclOp (op : OpM) : Bool := UnguardedRecursion op || ContentParamNoSchema op
+def ExclOp (op : OpM) : Bool := UnguardedRecursion op
 
 /-- `ValidateRequest` on a valid document outside the exclusion: for ALL traffic (all decoder and
     validator answers) the outcome is success or an error, never a panic or unbounded recursion -/
@@ -269,8 +266,7 @@ theorem validateRequest_no_panic_partial (op : OpM) (t : ReqTraffic) (hv : DocVa
   simp only [Bool.and_eq_true] at hv
   obtain ⟨⟨hp, hb⟩, _⟩ := hv
   unfold ExclOp at hx
-  simp only [Bool.or_eq_false_iff] at hx
-  obtain ⟨hu, hc⟩ := hx
+  have hu := hx
   unfold UnguardedRecursion at hu
   simp only [Bool.or_eq_false_iff] at hu
   obtain ⟨⟨hup, hub⟩, _⟩ := hu
@@ -281,10 +277,9 @@ theorem validateRequest_no_panic_partial (op : OpM) (t : ReqTraffic) (hv : DocVa
   rcases ho with ⟨ip, hip, rfl⟩ | ho
   · have hmem := mem_zipIdx _ _ _ hip
     have hwf := List.all_eq_true.mp hp ip.2 hmem
-    have hcn := Bool.eq_false_iff.mpr ((List.any_eq_false.mp hc) ip.2 hmem)
     have hun := Bool.eq_false_iff.mpr ((List.any_eq_false.mp hup) ip.2 hmem)
     simp only [Bool.or_eq_false_iff] at hun
-    apply validateParameter_no_panic_partial _ _ hwf hcn
+    apply validateParameter_no_panic_partial _ _ hwf
     · intro s hs; simpa [hs] using hun.1
     · intro m s hm hs; simpa [hm, MediaM.unguarded, hs] using hun.2
   · cases hbody : op.body with
@@ -302,8 +297,7 @@ theorem validateResponse_no_panic_partial (op : OpM) (t : RespTraffic) (hv : Doc
   simp only [Bool.and_eq_true] at hv
   obtain ⟨_, hr⟩ := hv
   unfold ExclOp at hx
-  simp only [Bool.or_eq_false_iff] at hx
-  obtain ⟨hu, _⟩ := hx
+  have hu := hx
   unfold UnguardedRecursion at hu
   simp only [Bool.or_eq_false_iff] at hu
   obtain ⟨_, hur⟩ := hu
@@ -390,46 +384,32 @@ structure Scenario where
   resp : RespTraffic
   errs : List ReqErrM        -- the request errors handed to ConvertErrors
 
-def ExclC10 (s : Scenario) : Prop :=
-  ExclOp s.op = true ∨ (∃ remaining, LiteralTemplateMiss s.paths s.method remaining = true) ∨
-    gorillaNewRouterPanics s.servers = true
+def ExclC10 (s : Scenario) : Bool := ExclOp s.op
 
-/-- C10 on the model, partial: a valid document outside the four finding classes cannot be made to panic
-    or recurse without bound by any traffic through the legacy router, the gorilla router's port branch,
-    ValidateRequest, ValidateResponse and ConvertErrors -/
-theorem valid_doc_no_panic_partial (s : Scenario) (hv : DocValid s.op = true) (hx : ¬ ExclC10 s)
+/-- C10 on the model, partial: a valid document without an unguarded reference cycle (F-C10-1, the one open
+    finding) cannot be made to panic or recurse without bound by any traffic through the legacy router, the
+    gorilla router's port branch, ValidateRequest, ValidateResponse and ConvertErrors -/
+theorem valid_doc_no_panic_partial (s : Scenario) (hv : DocValid s.op = true) (hx : ExclC10 s = false)
     (herr : ∀ e ∈ s.errs, ErrWF e = true) :
     (∀ site, legacyFindRoute s.servers s.paths s.method s.rawURL s.urlPath ≠ .panic site) ∧
     (∀ u ∈ s.servers, gorillaPortBranch u ≠ .panic) ∧
     (validateRequest s.op s.req).bad = false ∧
     (validateResponse s.op s.resp).bad = false ∧
-    (∀ e ∈ s.errs, (convertErrors e).bad = false) := by
-  have hop : ExclOp s.op = false := by
-    cases h : ExclOp s.op with
-    | false => rfl
-    | true => exact absurd (Or.inl h) hx
-  refine ⟨?_, ?_, validateRequest_no_panic_partial _ _ hv hop, validateResponse_no_panic_partial _ _ hv hop,
-    fun e he => convertErrors_no_panic e (herr e he)⟩
-  · apply legacyFindRoute_no_panic_partial
-    intro remaining
-    cases h : LiteralTemplateMiss s.paths s.method remaining with
-    | false => rfl
-    | true => exact absurd (Or.inr (Or.inl ⟨remaining, h⟩)) hx
-  · intro u hu hp
-    apply hx
-    right; right
-    unfold gorillaNewRouterPanics
-    exact List.any_eq_true.mpr ⟨u, hu, by simp [PortUnclosed, hp]⟩
+    (∀ e ∈ s.errs, (convertErrors e).bad = false) :=
+  ⟨legacyFindRoute_no_panic _ _ _ _ _, fun u _ => gorillaPortBranch_no_panic u,
+   validateRequest_no_panic_partial _ _ hv hx, validateResponse_no_panic_partial _ _ hv hx,
+   fun e he => convertErrors_no_panic e (herr e he)⟩
 
 /-! ## witnesses inside the exclusion, non-vacuity outside -/
 
 def sOK : SchemaM := ⟨true, false⟩
 def bitsAny : Bits := ⟨true, false, false, false, false⟩
 
-/-- witness F-C10-4: content parameter whose media type has no schema, parameter present in the request -/
-theorem content_param_no_schema_witness :
+/-- regression of F-C10-4: content parameter whose media type has no schema, parameter present in the request:
+    decoded, not validated -/
+theorem content_param_no_schema_regression :
     let p : ParamM := ⟨false, true, false, false, none, true, 1, some ⟨none⟩⟩
-    p.wf = true ∧ p.contentNoSchema = true ∧ (validateParameter p bitsAny).bad = true := by decide
+    p.wf = true ∧ validateParameter p bitsAny = .ok := by decide
 
 /-- witness F-C10-1 on the traffic model: a resolved schema with an unguarded cycle diverges when visited -/
 theorem unguarded_body_witness :
